@@ -62,7 +62,14 @@ func c14Size(r *rand.Rand) int64 {
 
 func (c14) Gen(r *rand.Rand, tier string, idx int) *core.Plan {
 	p := &core.Plan{World: map[string]int64{}}
-	urls := []string{"http://crl.example/a.crl", "http://crl.example/b.crl", "http://crl.example/a.crl/"}
+	// distinct URLs, some of them near-identical (trailing slash, letter case of the path, surrounding blank):
+	// each is its own key
+	urls := []string{"http://crl.example/a.crl", "http://crl.example/b.crl", "http://crl.example/a.crl/", "http://crl.example/A.crl", " http://crl.example/a.crl"}
+	if r.IntN(2) == 0 {
+		urls = urls[:3]
+	} else if r.IntN(2) == 0 {
+		urls = []string{urls[0], urls[3], urls[4]}
+	}
 	val := int64(0)
 	newSet := func(task int, url string, pad int64) core.Op {
 		val++
